@@ -20,6 +20,16 @@ type c16Case struct {
 	Extra int       `json:"extra"`
 	Dec   *decCase  `json:"dec,omitempty"` // decode side: well-formed or mutated input
 	Mut   *mutation `json:"mut,omitempty"`
+	// EnvFail: a failing DecodeObject call is made between decoding the envelope and decoding
+	// the payload it carried
+	EnvFail bool `json:"envfail,omitempty"`
+}
+
+// c16Envelope carries an encoded message as a binary field: decoding the payload then
+// reads an input buffer that is itself memory produced by an earlier decode.
+type c16Envelope struct {
+	Payload []byte `frugal:"1,default,binary"`
+	Note    string `frugal:"2,default,string"`
 }
 
 func genC16(t *rapid.T) c16Case {
@@ -36,6 +46,7 @@ func genC16(t *rapid.T) c16Case {
 			Pos: rapid.IntRange(0, 1<<20).Draw(t, "mp"), Val: int64(rapid.IntRange(0, len(lenVals)-1).Draw(t, "mv"))}
 		c.Mut = &m
 	}
+	c.EnvFail = rapid.Bool().Draw(t, "envfail")
 	return c
 }
 
@@ -228,6 +239,50 @@ func runC16(w *worker) func(c c16Case) *Failure {
 			} else {
 				w.label("decode-success-path")
 			}
+			// the same input once more, this time received inside an envelope: the buffer handed to
+			// DecodeObject is the binary field of a previously decoded object
+			note := "envelope-note-0123456789"
+			envMsg := []byte{0x0b, 0, 1, byte(len(in) >> 24), byte(len(in) >> 16), byte(len(in) >> 8), byte(len(in))}
+			envMsg = append(envMsg, in...)
+			envMsg = append(envMsg, 0x0b, 0, 2, 0, 0, 0, byte(len(note)))
+			envMsg = append(envMsg, note...)
+			envMsg = append(envMsg, 0)
+			var env c16Envelope
+			if _, err, f := fDecode(envMsg, &env); f != nil || err != nil {
+				if f != nil {
+					return f
+				}
+				return failf("envelope-rejected", "decoding the envelope failed: %v", err)
+			}
+			if c.EnvFail {
+				var junk c16Envelope
+				if _, err, f := fDecode([]byte{0x0b, 0, 1, 0, 0}, &junk); f != nil || err == nil {
+					if f != nil {
+						return f
+					}
+					return failf("malformed-accepted", "a truncated envelope was accepted")
+				}
+			}
+			dest2 := newDest(db)
+			_, err2, f := fDecode(env.Payload, dest2.Interface())
+			if f != nil {
+				return f
+			}
+			if !bytes.Equal(env.Payload, in) {
+				return failf("input-modified", "DecodeObject modified its input buffer, the binary field of an earlier decoded envelope (err=%v, failed call in between: %v)", err2, c.EnvFail)
+			}
+			if env.Note != note {
+				return failf("input-modified", "decoding the payload of an envelope changed the envelope's other field: %q", env.Note)
+			}
+			if (err == nil) != (err2 == nil) {
+				return failf("not-repeatable", "the same bytes decoded directly (err=%v) and from an envelope's payload (err=%v) disagree", err, err2)
+			}
+			if err == nil {
+				if m := core.EqualStruct(c.Dec.S, db.Lift(dest2.Elem()), db.Lift(dest.Elem()), core.EqOpts{}, "$"); m != nil {
+					return failf("not-repeatable", "the same bytes decoded directly and from an envelope's payload give different values: %s", m)
+				}
+			}
+			w.label("decode-from-decoded-binary")
 		}
 		hasMapOrPtr := strings.Contains(a0, ":map@") || strings.Contains(a0, ":ptr@")
 		w.count(hasMapOrPtr && c.Extra > 0, c.S.Sig()+string(first)+itoa(c.Extra), c)
